@@ -87,4 +87,29 @@ func init() {
 			{Pkg: "avc", Func: "HarnessC12_Sample", Labels: []string{"sample"}, Bound: "NAL length size 1..4, 0-3 NAL units with symbolic headers and 0-2 payload bytes", BoundT: "first NAL unit also at sizes 253-256, 65533-65536 where the length size allows"},
 		},
 	})
+	amfAssume := append([]string{"keys of one generated container are pairwise distinct (Set replaces an existing key); repeated keys are covered by the byte-level harnesses", "trees are built through the public constructors and Set()"}, commonAssumptions...)
+	reg(&propSpec{
+		ID:          "C05",
+		Rule:        "Harnesses in harness/amf0/c05.go: tree shapes fork (vChoice over node kinds), scalar contents (number bits, booleans, string and key bytes) are symbolic; byte-level harnesses take arbitrary byte strings.",
+		Assumptions: amfAssume,
+		Harnesses: []harnessSpec{
+			{Pkg: "amf0", Func: "HarnessC05_Tree", Labels: []string{"tree"},
+				Bound:  "trees of <=3 nodes, depth <=2, <=2 properties per container, strings/keys 0-1 symbolic bytes, numbers 64 symbolic bits",
+				BoundT: "trees of <=5 nodes, depth <=3, <=3 properties, strings/keys 0-2 symbolic bytes plus strings of 255/256/65535 bytes"},
+			{Pkg: "amf0", Func: "HarnessC05_Bytes", Labels: []string{"bytes-accepted", "bytes-rejected"},
+				Bound: "every byte string of 1..10 bytes (thorough: 1..13)"},
+			{Pkg: "amf0", Func: "HarnessC05_DupKeys", Labels: []string{"dupkeys"},
+				Bound: "object / ECMA array / strict array (library layout) with 2-3 properties, keys 0-1 symbolic bytes (so repeated and empty keys are solver choices), values null/boolean/short string, 0-2 trailing bytes"},
+		},
+	})
+	reg(&propSpec{
+		ID:          "C06",
+		Rule:        "Harnesses in harness/amf0/c06.go against the reference codec in harness/amf0/ref.go (written from amf0_spec_121207 2.2-2.12).",
+		Assumptions: amfAssume,
+		Harnesses: []harnessSpec{
+			{Pkg: "amf0", Func: "HarnessC06_LibToRef", Labels: []string{"lib-to-ref"}, Bound: "trees as C05_Tree; library bytes decoded by the reference decoder"},
+			{Pkg: "amf0", Func: "HarnessC06_RefToLib", Labels: []string{"ref-to-lib"}, Bound: "trees as C05_Tree (contents below a strict array concrete); reference bytes decoded by the library"},
+			{Pkg: "amf0", Func: "HarnessC06_Markers", Labels: []string{"marker-eof", "marker-supported", "marker-unsupported"}, Bound: "all 256 marker bytes (symbolic) followed by 0-2 symbolic bytes"},
+		},
+	})
 }
